@@ -516,6 +516,13 @@ type syncFollower struct {
 	// node's pool of unconfirmed blocks for good (the pool is then no longer compared with that of a node that only saw the chain)
 	extraPooled bool
 	history     []string
+	nr          *nrTrace // abstract node trace with reorganisations (s_syncbatches_nr.go)
+}
+
+// stop retires the follower: the abstract trace closes with the fresh-node comparison on the model side
+func (f *syncFollower) stop() {
+	f.nr.onStop(f)
+	f.follower.stop()
 }
 
 func (f *syncFollower) remember(kind, class string) {
@@ -532,6 +539,7 @@ type syncRun struct {
 	hist  *history
 	fols  []*syncFollower
 	nextF int
+	nr    *nrTrace
 	ops   int // every InsertChain call
 	tests int // calls that are test cases (not the clean batches that position a follower)
 }
@@ -540,6 +548,8 @@ func (r *syncRun) newFollower() *syncFollower {
 	f := &syncFollower{follower: newFollower(), id: r.nextF}
 	r.nextF++
 	r.c.Emit("sync-new %d %s", f.id, h8e(f.frontier().Hash))
+	f.nr = r.nr
+	r.nr.onNew(f)
 	return f
 }
 
@@ -606,6 +616,7 @@ func (r *syncRun) deliverVia(f *syncFollower, kind string, batch []elem, via fun
 		toks[i] = elemTok(batch[i])
 	}
 	c.Emit("sync-insert %d %s %d %s | %d %s %d %s", f.id, kind, len(batch), strings.Join(toks, " "), idx, class, len(after), joinHashes(after))
+	r.nr.onDeliver(f, batch, via != nil, before, idx, class, pn)
 	c.Hit("kind-" + kind)
 	c.Hit("result-" + class)
 	if err != nil && class == "verify" {
@@ -825,6 +836,9 @@ func (r *syncRun) reverify(f *syncFollower) {
 		}
 	}
 	c.Hit("reverified-chains")
+	if r.nr != nil {
+		r.nr.real[f.id] = true
+	}
 	r.noTrace(f, fresh.follower0())
 }
 
@@ -984,6 +998,7 @@ func init() {
 		}
 		hist := buildHistory(c, a, L, forks)
 		r := &syncRun{c: c, hist: hist}
+		r.nr = nrBegin(r) // C02/C06/C16: abstract node trace with reorganisations, `nr-…` lines (s_syncbatches_nr.go)
 		_ = imin
 		nb := 0
 		for _, n := range hist.byHash {
@@ -1143,6 +1158,10 @@ func init() {
 		//      more account block than they list (s_syncbatches_conc.go)
 		r.directedConcurrent()
 		r.directedExtraBlock()
+
+		// ---- part 2e: directed: gossip - reorganisation - restart - gossip of abandoned blocks - the abandoned branch again - back
+		//      (s_syncbatches_nr.go), every step on the abstract trace
+		r.directedReorg()
 
 		// ---- part 3: random operations on short-lived followers placed near the fork points ----------------
 		for r.tests < c.N {
